@@ -179,3 +179,5 @@ func live(r *hlib.Run, n int) {
 		r.Count("live:" + kind)
 	}
 }
+
+func relive(r *hlib.Run, n int) {}
